@@ -290,6 +290,79 @@ class Run:
                           "wall_s": round(time.time() - t0, 2), "exhaustive": exhaustive})
         return r, path, n, bad
 
+    def trace_leg(self, name, emit_args, spec="TV_Machine", cfg="TV_Machine.cfg", verdict=None,
+                  workers=8, timeout=3000, heap="12g", path=None):
+        """TV leg over runs: each `New` event starts a behaviour; TLC advances the
+        specification along the recorded events.  A rejected event carries `why`, the
+        names of the failed checks.  Names in `verdict` (None = all) decide the property;
+        the others are conformance drift (reported, exit 0)."""
+        t0 = time.time()
+        if path is None:
+            path, n = self.emit(name, ["emit"] + emit_args)
+        else:
+            n = sum(1 for _ in open(path, "rb"))
+        r = self.tlc(name, spec, cfg, env={"TRACE": path}, workers=workers, timeout=timeout, heap=heap)
+        rejected = []
+        for v in r.violations:
+            last = v["states"][-1] if v["states"] else {}
+            if "l" not in last:
+                continue
+            why = set(re.findall(r'"([^"]+)"', last.get("why", "")))
+            rejected.append((int(last["l"]), why))
+        rejected.sort()
+        nviol = 0
+        recs_needed = []
+        for (ln, why) in rejected:
+            recs_needed.append(ln)
+        recs = read_records(path, recs_needed[:40])
+        runs_bad = set()
+        for (ln, why) in rejected:
+            rec = recs.get(ln)
+            hard = why if verdict is None else (why & set(verdict))
+            soft = why - hard
+            runid = rec.get("run") if rec else None
+            if hard:
+                nviol += 1
+                runs_bad.add(runid)
+                if nviol <= 20:
+                    self.violations.append({
+                        "leg": name,
+                        "what": "event %d (run %s, %s) rejected by %s: %s" % (
+                            ln, runid, (rec or {}).get("ev"), spec, ",".join(sorted(hard))),
+                        "replay": {"kind": "trace", "leg": name, "emit": emit_args, "spec": spec, "cfg": cfg,
+                                   "line": ln, "run": runid, "why": sorted(why), "verdict": sorted(verdict) if verdict else None,
+                                   "record": _shorten(rec, 3000) if rec else None,
+                                   "seed": self.seed, "tier": self.tier}})
+            elif soft:
+                self.drift.append("leg %s event %d (run %s): specification and implementation differ on %s "
+                                  "(not what this property constrains)" % (name, ln, runid, ",".join(sorted(soft))))
+        nruns = 0
+        nsteps = 0
+        with open(path) as f:
+            for k, line in enumerate(f, 1):
+                if '"ev":"New"' in line:
+                    nruns += 1
+                    if len(self.samples) < 6 and nruns in (1, 2, 50):
+                        try:
+                            j = json.loads(line)
+                            self.samples.append({"leg": name, "line": k, "run_header": {
+                                kk: j[kk] for kk in ("run", "flags", "init") if kk in j}})
+                        except Exception:
+                            pass
+                elif '"ev":"Step"' in line[:400]:
+                    nsteps += 1
+        consumed = r.distinct
+        if consumed < n and not rejected:
+            self.violations.append({"leg": name, "what": "only %d of %d recorded events were consumed by %s" % (consumed, n, spec),
+                                    "replay": {"kind": "trace", "leg": name, "emit": emit_args, "spec": spec, "cfg": cfg,
+                                               "line": consumed + 1, "record": None, "seed": self.seed, "tier": self.tier}})
+        self.traces += max(nruns - len(runs_bad), 0)
+        self.evaluations += n
+        self.legs.append({"leg": name, "kind": "TV-trace", "spec": spec, "events": n, "runs": nruns,
+                          "events_consumed": consumed, "rejected_events": len(rejected), "verdict_violations": nviol,
+                          "tlc_states": r.distinct, "tlc_wall_s": round(r.wall, 2), "wall_s": round(time.time() - t0, 2)})
+        return r, path, n, rejected
+
     def mc_leg(self, name, spec, cfg, env=None, workers=8, timeout=1800, **kw):
         """MC leg: model-check the specification itself."""
         t0 = time.time()
@@ -449,6 +522,74 @@ def c35(run):
         level_note="thorough tier is exhaustive; quick is boundary + random")
 
 
+CONF = ["pc", "psr", "regs", "ssp", "mcr", "prefetch", "fno", "frames", "icount", "obs", "kbd", "kbdie",
+        "disp", "timers", "mem", "alloca", "res", "draw", "panic", "unknown-event"]
+
+
+def machine_args(run, extra=()):
+    return ["machine"] + list(extra)
+
+
+@check("C08")
+def c08(run):
+    run.trace_leg("machine", ["machine", "kind=all"], verdict=CONF + ["simerr"])
+    return run.finish(
+        rule="runs of the real Simulator (random machine states x random words at PC; structured programs through "
+             "the real OS with keyboard input; interrupt schedules with harness devices, keyboard interrupts and "
+             "seeded timers; seeded full-memory images), every step_in validated by TLC against Machine!StepIn "
+             "with the full projection (registers+masks, PC, PSR, saved SP, prefetch, MCR, frames, instruction "
+             "count, observer, device buffers, timers, diff of all 65 536 memory words); a run counts when all of "
+             "its events were accepted",
+        level_note="reference model = spec/Machine.tla written from the ISA and the code; strict-mode runs included")
+
+
+@check("C09")
+def c09(run):
+    run.trace_leg("adv", ["machine", "kind=adv"], verdict=["isolation", "panic"])
+    run.trace_leg("machine", ["machine", "kind=rand"], verdict=["isolation", "panic"])
+    return run.finish(
+        rule="adversarial user-mode states: every addressing mode (LD/LDI/LDR/ST/STI/STR, JMP/JSRR/BR/fall-through "
+             "fetch, TRAP, RTI) aimed at every boundary address, real and virtual traps; TLC evaluates Isolation on "
+             "each logged step (accessed addresses from the observer and from the full memory diff, device buffers)",
+        level_note="Isolation is stated on logged observer marks + full memory diff; privilege tagging follows the "
+                   "PSR before/after the step")
+
+
+@check("C16")
+def c16(run):
+    run.trace_leg("full", ["machine", "kind=full", "nfull=%d" % (60 if run.tier == "thorough" else 8)],
+                  verdict=["panic", "simerr", "prefetchpc"])
+    run.trace_leg("edge", ["machine", "kind=edge"], verdict=["panic", "simerr", "prefetchpc"])
+    run.trace_leg("rand", ["machine", "kind=rand", "strict=30"], verdict=["panic", "simerr", "prefetchpc"])
+    return run.finish(
+        rule="seeded random full-memory images, PC at every page boundary (xNN00/xNNFF incl. xFFFF and x0000), all "
+             "16 flag combinations, keyboard/display/timer/internal-register mappings; N steps then prefetch_pc(); "
+             "verdict: no Panic event, every failure is a SimErr, prefetch_pc = (pc - [not prefetch]) mod 2^16",
+        level_note="value conformance of these runs is reported as DRIFT only (C08 decides it)")
+
+
+@check("C27")
+def c27(run):
+    run.trace_leg("prog", ["machine", "kind=prog", "dbg=1"], verdict=["depth", "frames", "fno", "panic"])
+    run.trace_leg("int", ["machine", "kind=int", "dbg=1"], verdict=["depth", "frames", "fno", "panic"])
+    run.trace_leg("rand", ["machine", "kind=rand"], verdict=["depth", "frames", "fno", "panic"])
+    return run.finish(
+        rule="programs with nested JSR/JSRR/TRAP, unbalanced returns, interrupts, registered calling-convention and "
+             "pass-by-register signatures; DepthOK (calls - returns with saturation, classified from the fetched "
+             "word and the logged outcome) on every successful step, frame records compared exactly with debug frames on",
+        level_note="depth rule is stated independently of StepF; frame contents are compared with the specification's")
+
+
+@check("C28")
+def c28(run):
+    run.trace_leg("machine", ["machine", "kind=all"], verdict=["obs", "obsprop", "panic"])
+    return run.finish(
+        rule="all machine scenarios in non-strict and strict mode; the observer map is compared after every event with "
+             "the access set of the reference model (READ/WRITTEN/MODIFIED per address) and ObsProp is evaluated on "
+             "the logged marks against the full memory diff; host accesses through untracked contexts must leave it unchanged",
+        level_note="MODIFIED is compared as the code defines it (value or mask changed); ObsProp states only what the property does")
+
+
 # --------------------------------------------------------------------------
 
 def replay(pid, path):
@@ -486,7 +627,21 @@ def replay(pid, path):
         return fn(run, rp, path)
 
 
-REPLAYERS = {}
+def replay_trace(run, rp, path):
+    """Re-drive the implementation with the recorded seed/arguments and validate again."""
+    r, p2, n, rejected = run.trace_leg(rp["leg"], rp["emit"], spec=rp["spec"], cfg=rp["cfg"],
+                                       verdict=rp.get("verdict"))
+    hard = [v for v in run.violations]
+    if hard:
+        for v in hard[:5]:
+            log("  still rejected: %s" % v["what"])
+        log("VIOLATION property=%s replay=%s" % (run.pid, path))
+        return 1
+    log("current tree: all %d events accepted (recorded event was line %s: %s)" % (n, rp.get("line"), rp.get("why")))
+    return 0
+
+
+REPLAYERS = {"trace": replay_trace}
 
 
 def main(argv):
